@@ -34,6 +34,51 @@ pub fn args() -> BTreeMap<String, String> {
     m
 }
 
+// ---- breadcrumbs: which case was running when the process died (abort, SIGSEGV, ...) ----
+//
+// `crumb(line)` copies the case line into a per-thread memory-mapped file `<out>/crumb.<k>`
+// (no system call per case); the mapping is MAP_SHARED, so its contents survive an abort of the
+// process.  `Out::finish` removes the files; `./check` reads what is left of them when a stage
+// was killed by a signal and re-runs each candidate alone to confirm it.
+static CRUMB_DIR: std::sync::OnceLock<String> = std::sync::OnceLock::new();
+static CRUMB_SEQ: std::sync::atomic::AtomicUsize = std::sync::atomic::AtomicUsize::new(0);
+const CRUMB_CAP: usize = 1 << 22;
+thread_local! {
+    static CRUMB: std::cell::Cell<*mut u8> = const { std::cell::Cell::new(std::ptr::null_mut()) };
+}
+
+pub fn crumb(line: &str) {
+    let dir = match CRUMB_DIR.get() {
+        Some(d) => d,
+        None => return,
+    };
+    let mut p = CRUMB.with(|c| c.get());
+    if p.is_null() {
+        let k = CRUMB_SEQ.fetch_add(1, std::sync::atomic::Ordering::SeqCst);
+        let path = std::ffi::CString::new(format!("{}/crumb.{}", dir, k)).unwrap();
+        unsafe {
+            let fd = libc::open(path.as_ptr(), libc::O_RDWR | libc::O_CREAT | libc::O_TRUNC, 0o644);
+            if fd < 0 || libc::ftruncate(fd, CRUMB_CAP as libc::off_t) != 0 {
+                return;
+            }
+            let m = libc::mmap(std::ptr::null_mut(), CRUMB_CAP, libc::PROT_READ | libc::PROT_WRITE, libc::MAP_SHARED, fd, 0);
+            libc::close(fd);
+            if m == libc::MAP_FAILED {
+                return;
+            }
+            p = m as *mut u8;
+        }
+        CRUMB.with(|c| c.set(p));
+    }
+    let b = line.as_bytes();
+    let n = b.len().min(CRUMB_CAP - 2);
+    unsafe {
+        std::ptr::copy_nonoverlapping(b.as_ptr(), p, n);
+        *p.add(n) = b'\n';
+        *p.add(n + 1) = 0;
+    }
+}
+
 /// Output directory layout shared by every engine:
 ///   cases.txt   one case per line (input of the Lean driver)
 ///   impl.out    the implementation's canonical output, line i for case i
@@ -54,6 +99,7 @@ pub struct Out {
 impl Out {
     pub fn new(dir: &str) -> Self {
         std::fs::create_dir_all(dir).unwrap();
+        let _ = CRUMB_DIR.set(dir.to_string());
         let f = |n: &str| BufWriter::new(File::create(format!("{}/{}", dir, n)).unwrap());
         Out {
             cases: f("cases.txt"),
@@ -96,5 +142,12 @@ impl Out {
         let v = serde_json::json!({"cases": self.n_cases, "oracle_failures": self.n_oracle, "dist": self.stats,
             "distinct_nontrivial": self.classes.len()});
         std::fs::write(format!("{}/stats.json", self.dir), serde_json::to_string_pretty(&v).unwrap()).unwrap();
+        if let Ok(rd) = std::fs::read_dir(&self.dir) {
+            for e in rd.flatten() {
+                if e.file_name().to_string_lossy().starts_with("crumb.") {
+                    let _ = std::fs::remove_file(e.path());
+                }
+            }
+        }
     }
 }
